@@ -153,7 +153,31 @@ class CapSock:
         self.closed = True
 
     def get_extra_info(self, name, default=None):
+        if name == "sockname":
+            return (IP, 40000 + self.assoc)
         return default
+
+
+class ControlWriter:
+    """In-memory stand-in for the StreamWriter of one SOCKS5 control (TCP) connection."""
+
+    def __init__(self, peer):
+        self.peer, self.written, self.closed = peer, [], False
+
+    def get_extra_info(self, name, default=None):
+        return self.peer if name == "peername" else default
+
+    def write(self, data):
+        self.written.append(bytes(data))
+
+    async def drain(self):
+        return None
+
+    def close(self):
+        self.closed = True
+
+    def is_closing(self):
+        return self.closed
 
 
 class World:
@@ -169,6 +193,7 @@ class World:
         self.escaped: List[str] = []          # exception type names that escaped datagram_received
         self.violations: List[Dict[str, Any]] = []
         self.circuit_objs: List[Any] = []     # circuits in creation order (identity -> small index for snapshots)
+        self.controls: List[Any] = []         # via_socks: (StreamReader, ControlWriter, handle_connection task) per association
         self.addons: List[Any] = []
 
     # ---- driving ----------------------------------------------------------------------------------
@@ -184,6 +209,16 @@ class World:
             self.escaped.append(type(e).__name__)
         self.loop.run_ready()
         return self.sends[before:], exc
+
+    def close_control(self, assoc: int):
+        """The viewer's SOCKS5 control connection ends (EOF on the TCP stream): SOCKS5Server.handle_connection's finally
+        block closes that connection's ProxyClientContext."""
+        before = len(self.sends)
+        reader, _writer, task = self.controls[assoc]
+        reader.feed_eof()
+        self.loop.run_ready()
+        raised = task.exception() if task.done() and not task.cancelled() else None
+        return self.sends[before:], raised, task.done()
 
     def os_error(self, assoc: int, exc: OSError):
         """The OS reports an error on the association's socket: asyncio calls protocol.error_received(exc)."""
@@ -249,6 +284,11 @@ class World:
                 p.resend_task.cancel()
             except Exception:
                 pass
+        for _r, _w, t in self.controls:
+            try:
+                t.cancel()
+            except Exception:
+                pass
         try:
             for _, t in list(AddonManager.SCHEDULER.tasks):
                 t.cancel()
@@ -269,6 +309,13 @@ class World:
             p.transport = None
             p.session = None
             p.session_manager = None
+        for _r, _w, t in self.controls:
+            try:
+                t.cancel()
+            except Exception:
+                pass
+        self.controls = []
+        self.server = None
         self.protos = []
         self.sessions = []
         self.sm = None
@@ -324,11 +371,14 @@ def _counter_uuid4():
 
 
 def fresh(n_sessions: int = 2, addons: Optional[List[Any]] = None, neighbour: bool = True,
-          neighbour_handle: Any = "mixed") -> World:
+          neighbour_handle: Any = "mixed", via_socks: bool = False) -> World:
     """New world: SessionManager, n sessions (main region SIMS[0] from login data, neighbour SIMS[1] via
     register_region), one association/protocol per session, addons registered via AddonManager.init([], sm, addons).
     ``neighbour_handle``: True = every neighbour is registered with its region handle, False = without one (handle is
-    Optional: the proxy learns it later from AgentMovementComplete), "mixed" = session 0 with, session 1 without."""
+    Optional: the proxy learns it later from AgentMovementComplete), "mixed" = session 0 with, session 1 without.
+    ``via_socks``: the associations are not constructed by hand but by the real control path: one
+    ``SLSOCKS5Server.handle_connection`` task per viewer on in-memory streams (greeting, UDP ASSOCIATE); only
+    ``loop.create_datagram_endpoint`` is replaced (protocol factory is called, CapSock is the transport)."""
     global _LAST
     if _LAST is not None:
         _LAST.close()
@@ -354,14 +404,45 @@ def fresh(n_sessions: int = 2, addons: Optional[List[Any]] = None, neighbour: bo
             s.register_region(circuit_addr=SIMS[1], seed_url=f"https://sim1.test.localhost:12043/cap/{i}/seed",
                               handle=(((1001 + i) << 32) | 1000) if with_handle else None)
         w.sessions.append(s)
+        if via_socks:
+            continue
         p = InterceptingLLUDPProxyProtocol(TCP_PEERS[i], w.sm)
         sock = CapSock(w, i)
         p.connection_made(sock)
         sock.proto = p
         w.protos.append(p)
+    if via_socks:
+        _associate_via_socks(w, n_sessions)
     w.loop.run_ready()
     _LAST = w
     return w
+
+
+def _associate_via_socks(w: World, n: int):
+    import asyncio
+    import socket
+    from hippolyzer.lib.proxy.lludp_proxy import SLSOCKS5Server
+
+    async def create_datagram_endpoint(protocol_factory, local_addr=None, **kwargs):
+        p = protocol_factory()
+        sock = CapSock(w, len(w.protos))
+        p.connection_made(sock)
+        sock.proto = p
+        w.protos.append(p)
+        return sock, p
+    w.loop.create_datagram_endpoint = create_datagram_endpoint
+    w.server = SLSOCKS5Server(w.sm)
+    for i in range(n):
+        reader = asyncio.StreamReader(loop=w.loop)
+        writer = ControlWriter(TCP_PEERS[i])
+        task = w.loop.create_task(w.server.handle_connection(reader, writer))
+        reader.feed_data(b"\x05\x01\x00")                                                       # greeting: no auth
+        reader.feed_data(b"\x05\x03\x00\x01" + socket.inet_aton("0.0.0.0") + b"\x00\x00")       # UDP ASSOCIATE
+        w.loop.run_ready()
+        if len(w.protos) != i + 1 or task.done() or len(writer.written) != 2 or writer.written[1][:2] != b"\x05\x00":
+            raise RuntimeError(f"SOCKS control path did not produce association {i}: protos={len(w.protos)} "
+                               f"task_done={task.done()} replies={writer.written!r}")
+        w.controls.append((reader, writer, task))
 
 
 def restore_uuid4():
